@@ -916,7 +916,10 @@ class Pin(Constraint):
 
     def apply(self, block: Block, backend_request: BackendRequest) -> None:
         trial_nos = block.get_trial_numbers(self.factor, self.index, self.within_block)
-        if trial_nos:
+        sustain_count = block.sustain_count(self.factor)
+        # A derived factor has no level (and no variable) in a trial before its start
+        # or skipped by its stride, so the pin cannot be met there.
+        if trial_nos and all(self.factor.applies_to_trial(trial_no // sustain_count + 1) for trial_no in trial_nos):
             for trial_no in trial_nos:
                 var = block.get_variable(trial_no+1, (self.factor, self.level))
                 backend_request.cnfs.append(And([var]))
